@@ -2,12 +2,13 @@
 
 package req
 
-// C04 — keep-alive / message-boundary agreement at the connection level: the fork's Transport
+// C04 — keep-alive / message-boundary agreement at the connection level (round 2 lane; scripted
+// network of zz_verif_c04_seq_test.go since round 4): the fork's Transport
 // and Go's net/http.Transport (the reference) each perform a SEQUENCE of two requests over the
 // same scripted in-memory network; the first response comes from a grammar that stresses the
 // keep-alive decision (terminal statuses <= 199, 101 with and without Upgrade, HTTP/1.0 with
 // and without keep-alive, Connection variants, every framing, informational responses in
-// front). Compared three-way: model (`c03cut`: outcome and number of connections), fork,
+// front). Compared three-way: model (`c04cut`: outcome and number of connections), fork,
 // reference: what each request returned and how many connections were dialled.
 
 import (
@@ -24,6 +25,10 @@ import (
 
 	"github.com/imroc/req/v3/internal/verifh"
 )
+
+const c04Second = "second-response-OK"
+
+var c04SecondWire = "HTTP/1.1 200 OK\r\nContent-Length: " + strconv.Itoa(len(c04Second)) + "\r\n\r\n" + c04Second
 
 type c04E2EMsg struct {
 	wire string
@@ -165,25 +170,24 @@ func TestVerif_C04_keepalive(t *testing.T) {
 		"two sequential requests through the fork's Transport and through net/http.Transport (go1.23.5) over the same scripted in-memory network; first response from a keep-alive grammar: "+
 			"statuses 200/201/404/500/204/304, terminal 101 without and with Upgrade headers, statuses below 100 (042, 007, 099, 000) with a declared body, HTTP/1.0 and 1.1, Connection close/keep-alive variants, "+
 			"Content-Length and chunked framing, HEAD, informational responses in front; the peer keeps the connection open (or ends it after the response); the second request is served on the same connection "+
-			"if the client reuses it, else on a new one. Compared: result of both requests and the number of connections dialled, model (c03cut) vs fork vs reference; non-trivial = first response accepted")
+			"if the client reuses it, else on a new one. Compared: result of both requests and the number of connections dialled, model (c04cut) vs fork vs reference; non-trivial = first response accepted")
 	s.OracleIndependent = true
 	r := s.Rand()
 	n := verifh.N(3000, 30000)
 	reached := map[string]int{}
-	for i := 0; i < n; i++ {
+	hangs := 0
+	for i := 0; i < n && hangs < 3; i++ {
 		m := c04GenE2E(r)
 		mode := "hold"
 		if r.Intn(5) == 0 {
 			mode = "eof"
 		}
-		mk := func() *c03Net {
-			var first []c03Step
-			if mode == "hold" {
-				first = []c03Step{{data: []byte(m.wire)}, {data: c03SecondWire}}
-			} else {
-				first = []c03Step{{data: []byte(m.wire), end: io.EOF}}
+		mk := func() *c04sNet {
+			first := c04sScript{segs: []string{m.wire, c04SecondWire}}
+			if mode != "hold" {
+				first = c04sScript{segs: []string{m.wire}, eof: true}
 			}
-			return &c03Net{scripts: [][]c03Step{first, {{data: c03SecondWire}}}, seg: verifh.Pick(r, []int{0, 0, 1, 7})}
+			return &c04sNet{scripts: []c04sScript{first, {segs: []string{c04SecondWire, c04SecondWire}}, {segs: []string{c04SecondWire}}}, max: verifh.Pick(r, []int{0, 0, 1, 7})}
 		}
 		// fork
 		nwF := mk()
@@ -191,16 +195,19 @@ func TestVerif_C04_keepalive(t *testing.T) {
 		tr.DialContext = nwF.dial
 		tr.DisableCompression = true
 		tr.DisableAutoDecode()
-		f1, f2, fd := c04RunSeq(tr, m.head, func() int { nwF.mu.Lock(); defer nwF.mu.Unlock(); return nwF.dials }, nwF.closeAll)
+		f1, f2, fd := c04RunSeq(tr, m.head, nwF.nDials, nwF.closeAll)
 		tr.CloseIdleConnections()
 		nwF.closeAll()
 		// reference
 		nwR := mk()
 		ref := &http.Transport{DialContext: func(ctx context.Context, network, addr string) (net.Conn, error) { return nwR.dial(ctx, network, addr) }, DisableCompression: true}
-		r1, r2, rd := c04RunSeq(ref, m.head, func() int { nwR.mu.Lock(); defer nwR.mu.Unlock(); return nwR.dials }, nwR.closeAll)
+		r1, r2, rd := c04RunSeq(ref, m.head, nwR.nDials, nwR.closeAll)
 		ref.CloseIdleConnections()
 		nwR.closeAll()
-		want2 := "ok code=200 body=" + verifh.Hex(c03Second)
+		if f1 == "hang" || f2 == "hang" || r1 == "hang" || r2 == "hang" {
+			hangs++ // each costs the 10 s watchdog; three are enough to report
+		}
+		want2 := "ok code=200 body=" + verifh.Hex(c04Second)
 		agree := f1 == r1 && f2 == r2 && fd == rd
 		ok := agree && f2 == want2
 		why := ""
@@ -228,7 +235,7 @@ func TestVerif_C04_keepalive(t *testing.T) {
 		if why != "" {
 			human += " BUT " + why
 		}
-		s.Case("c03cut "+mtag+" "+mode+" "+verifh.Hex(m.wire)+" "+strconv.Itoa(len(m.wire)), first+" dials="+strconv.Itoa(fd), ok, "", strings.HasPrefix(f1, "ok"), human)
+		s.Case("c04cut "+mtag+" "+mode+" "+verifh.Hex(m.wire)+" "+strconv.Itoa(len(m.wire)), first+" dials="+strconv.Itoa(fd), ok, "", strings.HasPrefix(f1, "ok"), human)
 	}
 	s.Finish()
 	for _, need := range []string{"gen:101-plain", "gen:101-upgrade", "gen:042", "gen:099", "gen:1.0", "gen:keep-alive", "gen:close", "gen:chunked", "gen:HEAD", "gen:1xx-first", "connections=1", "connections=2"} {
